@@ -277,6 +277,14 @@ fn apply_text(c: &mut TextChunk<'_>, op: &Op) {
 
 type Log = Rc<RefCell<Vec<String>>>;
 
+fn ns_num_uri(uri: &str) -> u8 {
+    match uri {
+        "http://www.w3.org/1999/xhtml" => 0,
+        "http://www.w3.org/2000/svg" => 1,
+        _ => 2,
+    }
+}
+
 fn b01(b: bool) -> char {
     if b { '1' } else { '0' }
 }
@@ -301,11 +309,12 @@ fn element_handler(h: usize, scripts: Scripts, log: Log) -> impl FnMut(&mut Elem
             .map(|a| format!("{}={}", hex_or_dash(a.name_preserve_case().as_bytes()), hex_or_dash(a.value().as_bytes())))
             .collect();
         log.borrow_mut().push(format!(
-            "e{}@{}-{}:{}:{}:{}{}{}",
+            "e{}@{}-{}:{}:{}:{}:{}{}{}",
             h,
             loc.start,
             loc.end,
             hex_or_dash(el.tag_name_preserve_case().as_bytes()),
+            ns_num_uri(el.namespace_uri()),
             if attrs.is_empty() { "-".into() } else { attrs.join("+") },
             b01(el.is_self_closing()),
             b01(el.can_have_content()),
